@@ -217,7 +217,7 @@ PACKET = ("sendUnicast", "sendMulticast", "sendBroadcast", "setSourceRoute", "se
 PRIORITY_EXEMPT = {"getValue": "read by the watchdog for the free-buffer counter; classed with the keep-alives"}
 
 
-@rule("R06.6", ["C06"], "T-TAB", floor=200)
+@rule("R06.6", ["C06"], "T-TAB", floor=2000)
 def r06_6(ctx):
     """Priority classes: every keep-alive / counter-read command has a priority above every ordinary command,
     every ordinary command of every version has the default priority 0, every packet-send command is below 0; the
@@ -225,29 +225,32 @@ def r06_6(ctx):
     repo = ctx.repo
     f = repo.func(f"{PROTO}:ProtocolHandler._get_command_priority")
     ctx.fn(f)
-    c = vcls(ctx, 14)
     px = PX(repo, inline=inline_proto())
     names = set()
     for v in VERSIONS:
         names |= set(commands(ctx, v))
     for g in KEEPALIVE + PACKET:
         ctx.anchor(g in names, f"command {g} exists in some version")
+    # evaluated per version, on that version's handler class with that version's table (a priority looked up through anything
+    # version-specific - a frame ID, say - must come out right in every version)
     pri = {}
-    for nm in sorted(names):
-        ps = px.explore(f, lambda: (self_obj(c, {}), {"name": nm}))
-        if len(ps) != 1 or ps[0].terminal != "return" or not isinstance(ps[0].value, int):
-            raise AnalysisError(f"_get_command_priority({nm!r}) not evaluable")
-        pri[nm] = ps[0].value
-        ctx.case(1)
-    for nm in sorted(names):
-        if nm in KEEPALIVE:
-            ctx.require(pri[nm] > 0, f"priority:{nm}", f"keep-alive command {nm} has priority {pri[nm]} (must be above the default 0)", func=f)
-        elif nm in PACKET:
-            ctx.require(pri[nm] < 0, f"priority:{nm}", f"packet-send command {nm} has priority {pri[nm]} (must be below the default 0)", func=f)
-        elif nm in PRIORITY_EXEMPT:
-            ctx.require(pri[nm] >= 0, f"priority:{nm}", f"{nm} has priority {pri[nm]}", func=f)
-        else:
-            ctx.require(pri[nm] == 0, f"priority:{nm}", f"ordinary command {nm} has priority {pri[nm]} (must be the default 0)", func=f)
+    for v in VERSIONS:
+        c = vcls(ctx, v)
+        for nm in sorted(commands(ctx, v)):
+            ps = px.explore(f, lambda: (self_obj(c, {}), {"name": nm}))
+            if len(ps) != 1 or ps[0].terminal != "return" or not isinstance(ps[0].value, int):
+                raise AnalysisError(f"_get_command_priority({nm!r}) not evaluable in version {v}")
+            val = ps[0].value
+            pri.setdefault(nm, val)
+            ctx.case(1)
+            if nm in KEEPALIVE:
+                ctx.require(val > 0, f"priority:{nm}", f"v{v}: keep-alive command {nm} has priority {val} (must be above the default 0)", func=f)
+            elif nm in PACKET:
+                ctx.require(val < 0, f"priority:{nm}", f"v{v}: packet-send command {nm} has priority {val} (must be below the default 0)", func=f)
+            elif nm in PRIORITY_EXEMPT:
+                ctx.require(val >= 0, f"priority:{nm}", f"v{v}: {nm} has priority {val}", func=f)
+            else:
+                ctx.require(val == 0, f"priority:{nm}", f"v{v}: ordinary command {nm} has priority {val} (must be the default 0)", func=f)
     # the value is what is passed to the semaphore
     for nm in ("nop", "sendUnicast", "version"):
         g, px2, paths = explore_command(ctx, 8, 3, nm)
